@@ -54,10 +54,11 @@ theorem fact_available_subnet_expressions (usedCount replicas : Nat) (kp sized n
 
 /-- Order inside `getAvailableSubnet` (ranges refused, ByPrefix, count loop, size limit, THEN the reserved subnets with
     reserve=true, only otherwise the free ones) and in `getSubnet` (allocation during filter iff
-    `(reserve || sized) && subnets ≠ ∅`, in `List()[0]`, its error returned). -/
+    `(reserve || sized) && subnets ≠ ∅`, in `List()[0]`, its error returned; a pod whose key owns an address is answered
+    with that address' node subnets first). -/
 theorem fact_filter_shape :
     Generated.C03.availableSubnetShape = true ∧ Generated.C03.getSubnetReturnsAllocError = true ∧
-    Generated.C03.allocateDuringFilterAttr = true := by decide
+    Generated.C03.allocateDuringFilterAttr = true ∧ Generated.C03.getSubnetAnswersOwnedFirst = true := by decide
 
 /-- `allocateDuringFilter` returns the error of `allocateInSubnetWithKey` without falling through to a fresh
     allocation. -/
